@@ -716,8 +716,16 @@ def standard_check(mod, tier, seed, replay=None):
         if replay:
             return do_replay(rep, mod, legs, harness, replay)
         for leg in legs:
-            run_leg(rep, pid, leg, harness, known)
-        replay_known(rep, pid, legs, harness, known)
+            try:
+                run_leg(rep, pid, leg, harness, known)
+            except Exception:  # e.g. a generator that reads a spec the translator can no longer recognise
+                import traceback
+                rep.oblige('leg:%s' % leg.name, False, 'leg crashed: ' + traceback.format_exc()[-2500:])
+        try:
+            replay_known(rep, pid, legs, harness, known)
+        except Exception:
+            import traceback
+            rep.oblige('replay-known', False, traceback.format_exc()[-2500:])
     elif legs:
         rep.notes.append('correspondence legs not run: build failed')
         if harness_ok is False:
